@@ -61,6 +61,23 @@ func TestC04Proc(t *testing.T) {
 				}
 			}
 		}
+		// CleanupClients over managed clients, one per launch method (the reattached one must be killed as well)
+		for _, launch := range []string{"cmd", "runner", "reattach"} {
+			ops := []string{"new", "start", "client", "dispense", "set:1"}
+			hl := launch
+			if launch == "reattach" {
+				ops = append(ops, "reattach:0", "start", "client", "dispense", "get")
+				hl = "cmd"
+			}
+			ops = append(ops, "cleanup", "proc?")
+			cells = append(cells, Cell{
+				Name:   fmt.Sprintf("%s launch=%s plugin=exits-at-once (managed, CleanupClients)", proto, launch),
+				Plugin: PluginConf{CookieKey: cookieKey, CookieValue: cookieVal, Legacy: 1, LegacyProto: proto, GRPCServer: true, TLS: "none", ExitMarker: "auto"},
+				Host:   HostConf{Allowed: []string{"netrpc", "grpc"}, TLS: "none", Launch: hl, Legacy: 1, SkipHostEnv: true, Managed: true},
+				Ops:    ops,
+			})
+			exp = append(exp, beh{name: "managed-cleanup", maxKillMs: 30000})
+		}
 		// never completed the handshake
 		cells = append(cells, Cell{Name: proto + " launch=cmd plugin=silent (start timeout)", Plugin: PluginConf{LegacyProto: proto},
 			Host: HostConf{Allowed: []string{"netrpc", "grpc"}, TLS: "none", Launch: "cmd", Legacy: 1, Script: "exec sleep 30", StartTimeoutMs: 1500},
@@ -102,7 +119,10 @@ func TestC04Proc(t *testing.T) {
 			if strings.HasPrefix(o.Op, "killconc") && o.Err != "" {
 				bad("PANIC", "%s", o.Err)
 			}
-			if strings.HasPrefix(o.Op, "kill") && o.Ms > b.maxKillMs {
+			if o.Op == "cleanup" && o.Val != "true" {
+				bad("L", "Exited() is false for a managed client after CleanupClients returned")
+			}
+			if (strings.HasPrefix(o.Op, "kill") || o.Op == "cleanup") && o.Ms > b.maxKillMs {
 				bad("T", "%s took %d ms", o.Op, o.Ms)
 			}
 			if strings.HasPrefix(o.Op, "kill") && o.Val == "false" && (c.Host.Launch != "cmd" || !strings.Contains(c.Name, "reattach") || o.Op == "kill:0") && b.name != "silent" {
